@@ -88,6 +88,10 @@ def gen_case(rng, i):
             q = g.gen_select(set())
             q['items'] = [{'kind': 'expr', 'expr': kf}, {'kind': 'agg', 'func': 'COUNT', 'spelling': 'COUNT', 'arg': '*'}, {'kind': 'agg', 'func': 'MAX', 'spelling': 'MAX', 'arg': ['len', ['field', 'a', 1, 'var']]}]
             q['group'] = [kf]
+            if 'top' in feats:
+                # fewer rows than groups: the writer chain is cut short, yet every front-end's sink must still be finished
+                q['top'] = rng.randrange(0, 3)
+                q['top_kw'] = rng.choice(['top', 'limit'])
         else:
             f2 = set(feats)
             f2.discard('join')
